@@ -346,7 +346,7 @@ Section DeliveryProofs.
     unfold PeerGate.gate_msg, deliver.
     destruct g as [ini batch]. cbn [g_init g_batch].
     destruct (decode m) as [k|e ty].
-    - destruct k as [|chan size cs|chan| |ty].
+    - destruct k as [|chan size cs|chan| |pl|ty].
       + destruct (init_ok m); destruct ini; cbn; try discriminate; reflexivity.
       + destruct ini; cbn; try discriminate.
         destruct batch as [[[bc bs] bn]|]; cbn; try discriminate.
@@ -363,8 +363,53 @@ Section DeliveryProofs.
         destruct batch as [[[bc bs] bn]|]; cbn; [discriminate | reflexivity].
       + destruct ini; cbn; try discriminate.
         destruct batch as [[[bc bs] bn]|]; cbn; [discriminate|].
+        destruct (pl <? PING_PONGLEN_LIMIT); cbn; reflexivity.
+      + destruct ini; cbn; try discriminate.
+        destruct batch as [[[bc bs] bn]|]; cbn; [discriminate|].
         destruct (handler_ok m); cbn; [reflexivity | discriminate].
     - destruct (decode_policy e ty); destruct ini; cbn; try discriminate; reflexivity.
+  Qed.
+
+  (** every reply the gate enqueues fits a transport frame: a pong is sent only when
+      [ponglen < PING_PONGLEN_LIMIT], and its encoding is [ponglen + 4 <= LN_MAX_MSG_LEN] bytes *)
+  Lemma pong_fits pl : 0 <= pl < PING_PONGLEN_LIMIT -> blen (pong_msg pl) <= LN_MAX_MSG_LEN.
+  Proof.
+    clear dh pub pk_valid hkdf2 H seal open decode init_ok handler_ok our_node_secret our_ephemeral.
+    intros H0. unfold blen, pong_msg, be16. rewrite !app_length, repeat_length. cbn [length].
+    unfold PING_PONGLEN_LIMIT, LN_MAX_MSG_LEN in *. lia.
+  Qed.
+
+  Theorem replies_fit_frame g m :
+    (forall pl, decode m = DOk (KPing pl) -> 0 <= pl) ->
+    Forall (fun e => match e with EvReply r => blen r <= LN_MAX_MSG_LEN | _ => True end)
+           (fst (gate_msg g m)).
+  Proof.
+    clear dh pub pk_valid hkdf2 H seal open our_node_secret our_ephemeral.
+    intros Hpl. unfold PeerGate.gate_msg, deliver. destruct g as [ini batch]. cbn [g_init g_batch].
+    destruct (decode m) as [k|e ty] eqn:Hd.
+    - destruct k as [|chan size cs|chan| |pl|ty].
+      + destruct (negb (init_ok m) || ini); cbn; repeat constructor.
+      + destruct (negb ini); cbn; [repeat constructor|].
+        destruct batch as [[[bc bs] bn]|]; cbn; [repeat constructor|].
+        destruct (size <=? 1); cbn; [repeat constructor|].
+        destruct (BATCH_SIZE_LIMIT <? size); cbn; [repeat constructor|].
+        destruct cs; cbn; repeat constructor.
+      + destruct (negb ini); cbn; [repeat constructor|].
+        destruct batch as [[[bc bs] bn]|]; cbn.
+        * destruct (negb (beqb chan bc)); cbn; [repeat constructor|].
+          destruct (bn + 1 =? bs); cbn; [|repeat constructor].
+          destruct (handler_ok m); cbn; repeat constructor.
+        * destruct (handler_ok m); cbn; repeat constructor.
+      + destruct (negb ini); cbn; [repeat constructor|].
+        destruct batch as [[[bc bs] bn]|]; cbn; repeat constructor.
+      + destruct (negb ini); cbn; [repeat constructor|].
+        destruct batch as [[[bc bs] bn]|]; cbn; [repeat constructor|].
+        destruct (Z.ltb_spec pl PING_PONGLEN_LIMIT); cbn; [|repeat constructor].
+        repeat constructor. apply pong_fits. specialize (Hpl pl eq_refl). lia.
+      + destruct (negb ini); cbn; [repeat constructor|].
+        destruct batch as [[[bc bs] bn]|]; cbn; [repeat constructor|].
+        destruct (handler_ok m); cbn; repeat constructor.
+    - destruct (decode_policy e ty); cbn; repeat constructor.
   Qed.
 
   (** THE GATE, for every message kind including the batch path: while the peer's Init has not
@@ -379,11 +424,12 @@ Section DeliveryProofs.
   Proof.
     intros Hi. unfold PeerGate.gate_msg, deliver. destruct g as [ini batch]. cbn [g_init g_batch] in *. subst ini.
     destruct (decode m) as [k|e ty].
-    - destruct k as [|chan size cs|chan| |ty]; cbn.
+    - destruct k as [|chan size cs|chan| |pl|ty]; cbn.
       + destruct (init_ok m); cbn.
         * split; [intros [H0|[H0|[]]]; discriminate|]. split; [intros g' [= <-]; reflexivity|].
           intros k [= <-] Hk. contradiction.
         * split; [intros [H0|[]]; discriminate|]. split; [discriminate|]. intros; reflexivity.
+      + split; [intros [H0|[]]; discriminate|]. split; [discriminate|]. intros; reflexivity.
       + split; [intros [H0|[]]; discriminate|]. split; [discriminate|]. intros; reflexivity.
       + split; [intros [H0|[]]; discriminate|]. split; [discriminate|]. intros; reflexivity.
       + split; [intros [H0|[]]; discriminate|]. split; [discriminate|]. intros; reflexivity.
